@@ -70,9 +70,17 @@ def expand(spec):
     return out
 
 
+def km_item(km, x, n):
+    """the source item that carries value x under key_mapper form km: a 1-tuple, or a record (a dict with the position as a
+    second field: records with equal values are different, unorderable items -- only the MAPPED values may be compared)"""
+    return {'v': x, 'n': n} if km == 'dict' else (x,)
+
+
 def build(op, reduce, km):
     kw = {'reduce': reduce}
-    if km:
+    if km == 'dict':
+        kw['key_mapper'] = lambda i: i['v']
+    elif km:
         kw['key_mapper'] = lambda i: i[0]
     return {'sum': rs.math.sum, 'mean': rs.math.mean, 'min': rs.math.min, 'max': rs.math.max, 'variance': rs.math.variance,
             'stddev': rs.math.stddev, 'fvariance': rs.math.formal.variance, 'fstddev': rs.math.formal.stddev}[op](**kw)
@@ -182,12 +190,12 @@ def check(case):
     if op in ('fvariance', 'fstddev'):
         xs = xs[:1030]          # quadratic cost: long inputs are cut just beyond 1000 items
     ctx = {k: case[k] for k in ('op', 'km', 'mode', 'data', 'w', 'nk') if k in case}
-    items = [(x,) for x in xs] if km else list(xs)
+    items = [km_item(km, x, n) for n, x in enumerate(xs)] if km else list(xs)
     # split among keys for the grouped mode: key = position % nk
     if mode == 'grouped':
         nk = case.get('nk', 2)
         head, tail_s, tail_r = [], [], []
-        wrap = (lambda x, n: ((x,), n % nk)) if km else (lambda x, n: (x, n % nk))
+        wrap = (lambda x, n: (km_item(km, x, n), n % nk)) if km else (lambda x, n: (x, n % nk))
         gitems = [wrap(x, n) for n, x in enumerate(xs)]
         res = {}
         for reduce, tail in ((False, tail_s), (True, tail_r)):
@@ -283,7 +291,7 @@ def case_gen(draw, long_max):
                 'off_e': draw(st.integers(-6, 9)), 'scale_e': draw(st.integers(-13, 6)),
                 'shape': draw(st.sampled_from(['uniform', 'two-point', 'sorted', 'constant', 'alternating'])), 'seed': draw(st.integers(0, 10 ** 6))}
     mode = draw(st.sampled_from(['plain', 'store', 'grouped', 'windows']))
-    case = {'data': data, 'op': draw(st.sampled_from(OPS)), 'km': draw(st.booleans()), 'mode': mode}
+    case = {'data': data, 'op': draw(st.sampled_from(OPS)), 'km': draw(st.sampled_from([False, False, True, 'dict'])), 'mode': mode}
     if case['op'] in ('sum', 'mean', 'min', 'max') and kind == 'short' and mode != 'grouped' and draw(st.integers(0, 7)) == 0:
         # huge values of alternating sign: every partial sum of a run of CONSECUTIVE items is representable (not so for the
         # every-other-item sequences of the grouped mode, where a sum legitimately overflows)
